@@ -70,6 +70,9 @@ def graph_rewrite(t: Term) -> Term | None:
         if t[2] == "nodes":
             return ("V", g)
         return ("Ed", g) if t[1][2] == "directed" else ("Eu", g)
+    if h == "attr" and t[2] == "nodes" and t[1][0] in ("call", "nxgraph"):
+        # the node view of a graph value: the same collection as .nodes()
+        return ("V", t[1])
     if h == "meth" and t[2] == "nodes" and not t[3] and not t[4] and t[1][0] != "attr":
         # G.nodes() on an (untyped) graph value
         return ("V", t[1])
